@@ -15,7 +15,6 @@ import (
 	"net/netip"
 	"os"
 	"testing"
-	"time"
 
 	"github.com/DataDog/datadog-traceroute/common"
 	"github.com/DataDog/datadog-traceroute/packets"
@@ -55,8 +54,7 @@ func c09SourceStream(t *testing.T, rep *hx.Report, orc *hx.Oracle, rng *hx.RNG) 
 		if err := unix.Send(tx, f, 0); err != nil {
 			t.Fatalf("send: %v", err)
 		}
-		src.SetReadDeadline(time.Now().Add(2 * time.Millisecond))
-		rerr := packets.ReadAndParse(src, buf, parser)
+		rerr := readRobust(src, fds[1], func() error { return packets.ReadAndParse(src, buf, parser) })
 		outcome := "parsed"
 		switch {
 		case rerr == nil:
@@ -70,8 +68,8 @@ func c09SourceStream(t *testing.T, rep *hx.Report, orc *hx.Oracle, rng *hx.RNG) 
 			if err := unix.Send(tx, f, 0); err != nil {
 				t.Fatalf("send: %v", err)
 			}
-			src.SetReadDeadline(time.Now().Add(2 * time.Millisecond))
-			m, derr := src.Read(buf)
+			var m int
+			derr := readRobust(src, fds[1], func() (e error) { m, e = src.Read(buf); return })
 			tok := "none"
 			switch {
 			case derr == nil:
